@@ -830,6 +830,11 @@ func runCase(m *mon.M, c *Case) {
 }
 
 func replay(m *mon.M, raw json.RawMessage) {
+	var od OpDefaults
+	if err := json.Unmarshal(raw, &od); err == nil && od.Kind == "op-client-defaults" {
+		runOpDefaults(m, &od)
+		return
+	}
 	var c Case
 	if err := json.Unmarshal(raw, &c); err != nil {
 		m.Violate("bad-replay-case", err.Error(), nil)
